@@ -35,6 +35,9 @@ class ContractBroken(Exception):
     pass
 
 
+MARKER_RE = re.compile(r"@(?:end)?(?:note|warning|todo|bug|history)\b", re.I)  # a box marker shown as text
+
+
 def _snap_seq(lines):
     return docgrammar.tracer_seq(list(lines))
 
@@ -113,7 +116,8 @@ def observe_project(item):
             if v:
                 meta[k] = v if isinstance(v, str) else str(v)
         out[path] = {"list": docgrammar.tracer_seq(list(ent.doc_list)), "html": docgrammar.tracer_seq(htmltext), "meta": meta,
-                     "zn_in_doc": bool(re.search(r"\bzn\d", " ".join(ent.doc_list) + " " + htmltext)), "raw": list(ent.doc_list)[:40]}
+                     "zn_in_doc": bool(re.search(r"\bzn\d", " ".join(ent.doc_list) + " " + htmltext)), "raw": list(ent.doc_list)[:40],
+                     "marker_leak": MARKER_RE.findall(htmltext)[:3]}
     diags = [w for w in cap.warnings if "Error parsing" in w] + [l for l in cap.stdout.splitlines() if l.startswith("ERROR in file")]
     return {"docs": out, "diags": diags[:5], "mon": dict(MON), "warnings": [w for w in cap.warnings if "metadata" in w][:5]}
 
@@ -179,6 +183,9 @@ def case_project(arg):
         if got["meta"] != emeta or any(w.startswith("zm") for w in got["html"]):
             viol.append({"kf": {"kind": "metadata_mismatch", "entity": kind, **kfb},
                          "w": {"path": path, "expected": emeta, "observed": got["meta"], "shown_in_body": [w for w in got["html"] if w.startswith("zm")], "doc_list": got["raw"], "seed": seed, "files": texts, "arg": list(arg[:2]) + [marks]}})
+        if got.get("marker_leak"):
+            viol.append({"kf": {"kind": "note_marker_shown_as_text", "body_features": note_mechanism(got["raw"]), **kfb},
+                         "w": {"path": path, "markers": got["marker_leak"], "doc_list": got["raw"], "seed": seed, "arg": list(arg[:2]) + [marks]}})
         if got["zn_in_doc"]:
             viol.append({"kf": {"kind": "ordinary_comment_in_doc", "entity": kind, **kfb}, "w": {"path": path, "doc_list": got["raw"], "seed": seed, "files": texts, "arg": list(arg[:2]) + [marks]}})
     # documentation attached to entities that have none in the model
@@ -207,7 +214,7 @@ def convert_bodies(chunk):
             err = None
         except Exception as e:
             h, err = "", f"{type(e).__name__}: {str(e)[:200]}"
-        res.append({"ident": ident, "html_words": docgrammar.tracer_seq(docgrammar.html_text(h)), "error": err, "contract": MON["admon_viol"][before:][:2]})
+        res.append({"ident": ident, "html_words": docgrammar.tracer_seq(docgrammar.html_text(h)), "marker_leak": MARKER_RE.findall(docgrammar.html_text(h))[:3], "error": err, "contract": MON["admon_viol"][before:][:2]})
     return {"res": res, "evals": MON["admon_evals"]}
 
 
@@ -291,6 +298,8 @@ def main():
                 got = x["html_words"]
                 how = "missing_words" if len(got) < len(exp) else ("order_or_duplicates" if sorted(got) == sorted(exp) or len(got) > len(exp) else "other")
                 run.violation({"kind": "rendered_body_mismatch", "how": how, "body_features": mech}, {"body": lines, "expected": exp, "observed": got})
+            if x.get("marker_leak") and not x["error"]:
+                run.violation({"kind": "note_marker_shown_as_text", "body_features": mech}, {"body": lines, "markers": x["marker_leak"]})
             for cv in x["contract"]:
                 run.violation({"kind": "admonition_preprocessor_word_conservation", "body_features": note_mechanism(cv["input"])}, cv)
     run.max_samples = 2
